@@ -46,6 +46,26 @@ def _oblige_index(interp, st, ok, node, what="index"):
     if ok is True or interp.ctx.options.get("spec_mode"):
         return
     exc = "KeyError" if what == "key" else "IndexError"
+    I = _I()
+    catching = any(any(I.exc_is_subclass(exc, h) for h in hs) for hs in getattr(interp.ctx, "try_handlers", []))
+    if catching and interp.ctx.inline_depth == 0:
+        # inside a `try` whose handler catches this lookup error: the failing lookup is a path into the handler, not an obligation
+        binders = list(getattr(st, "binders", []))
+        if binders:
+            est = st.copy()
+            est.excs = []
+            est.pc.extend(to_z3(g) for g in st.guards)
+            est.pc.append(to_z3(b_not(ok)))
+            est.guards = []
+            est.binders = []
+            est.trace.append(f"raises:{exc}@{getattr(node, 'lineno', '?')}")
+            if interp.ctx.feasible(est):
+                st.excs.append((exc, est))
+            g = z3.And(*[to_z3(x) for x in st.guards]) if st.guards else z3.BoolVal(True)
+            st.pc.append(z3.ForAll(binders, z3.Implies(g, to_z3(ok))))
+        else:
+            interp.raise_if(st, b_not(ok), exc, node)
+        return
     interp.ctx.oblige(st, ok, f"no-{exc}@{getattr(node, 'lineno', '?')}:{getattr(node, 'col_offset', '?')}", node, "index")
     st.assume(ok)
 
@@ -117,6 +137,12 @@ def getitem(interp, st, base, idx, node=None):
         j, ok = M.norm_index(idx, n)
         _oblige_index(interp, st, ok, node)
         return base.get(j)
+    if isinstance(base, V.SDict):
+        key = idx if is_sym(idx) else (z3.StringVal(idx) if isinstance(idx, str) else None)
+        if key is None or key.sort() != z3.StringSort():
+            raise Outside("string-keyed dict indexed by a non-string", node)
+        _oblige_index(interp, st, base.has(key), node, what="key")
+        return base.get(key)
     if isinstance(base, CDict):
         key = M.as_key(idx, node)
         _oblige_index(interp, st, base.has(key), node, "key")
